@@ -50,7 +50,8 @@ _SHAPE_TWINS = [(f'{CAT}.orientation', 'stmt', _ORIENT, 'orientation keeps the q
 EXTRA_SPECS = {
     'C01': [('photutils.aperture.mask.ApertureMask.to_image', 'nret', '2', 'to_image returns a freshly filled image (or None without overlap): no view of the mask data'),
             ('photutils.aperture.mask.ApertureMask.to_image', 'ret', 'None ||| image', 'to_image returns a freshly filled image')],
-    'C13': [('photutils.psf.model_helpers.grid_from_epsfs', 'stmt', 'grid_xypos = list(zip(x_0s, y_0s, strict=True))',
+    'C13': [('photutils.psf.gridded_models.GriddedPSFModel._calc_model_values', 'stmt', 'idx = np.where(weights != 0)',
+             'every ePSF with a non-zero bilinear weight contributes (the weights sum to one)')] + [('photutils.psf.model_helpers.grid_from_epsfs', 'stmt', 'grid_xypos = list(zip(x_0s, y_0s, strict=True))',
              'grid positions stay in the order of the stacked ePSF arrays')],
     'C04': [
         (f'{SEG}.detect.detect_threshold', 'guard', 'data = np.ma.MaskedArray(data, mask) ||| background is None; error is None; mask is None',
@@ -99,7 +100,9 @@ EXTRA_SPECS = {
         ('photutils.psf.photometry.PSFPhotometry._prepare_fit_inputs', 'order', 'self._make_mask ||| self._prepare_init_params',
          'the non-finite pixels are masked before the initial parameters (finder, aperture fluxes, local background) are derived'),
     ],
-    'C14': [('photutils.utils._parameters.as_pair', 'stmt',
+    'C14': [('photutils.detection.daofinder._DAOStarFinderCatalog.__init__', 'stmt',
+             'self.cutout_center = tuple((size - 1) // 2 for size in kernel.shape)',
+             'the cutout centre is the (row, column) centre of the kernel array')] + [('photutils.utils._parameters.as_pair', 'stmt',
              'value = np.array((min(value[0], upper_bound[0]), min(value[1], upper_bound[1])))',
              'each element is clipped to the bound of its own axis'),
             ('photutils.detection.core._validate_brightest', 'stmt', 'brightest = bright_int', 'brightest is returned as an int'),
@@ -118,7 +121,8 @@ EXTRA_SPECS = {
         ('photutils.utils.interpolation.ShepardIDWInterpolator.__call__', 'default', 'dtype=float',
          'interpolated values are floating point whatever the dtype of the known values'),
     ],
-    'C16': [(f'{AS}.__getitem__', 'expr', "keys.add('_local_bkg')", 'the per-position local background is sliced with the index, like the cached per-position values'),
+    'C16': [(f'{AS}.biweight_midvariance', 'ret', 'self._calculate_stats(biweight_midvariance, unit=unit)',
+             'the documented biweight midvariance (astropy defaults) of the unmasked aperture pixels')] + [(f'{AS}.__getitem__', 'expr', "keys.add('_local_bkg')", 'the per-position local background is sliced with the index, like the cached per-position values'),
             (f'{AS}.__getitem__', 'stmt',
              "init_attr = ('_data', '_data_unit', '_error', '_mask', '_wcs', 'sigma_clip', 'sum_method', 'subpixels', 'default_columns', 'meta')",
              'only position-independent attributes are copied unsliced')] + _SHAPE_TWINS + [
